@@ -23,12 +23,29 @@ constexpr int MAX_TEAM = 8;
 constexpr int NSITES = cocls::verif::site_count;
 constexpr int EVLOG = 128;
 
+// Relaxed-atomic cell: plain loads/stores for the hardware, but not a data race for TSan and, being
+// relaxed and never a read-modify-write, it creates no happens-before edge between the threads under test.
+template <typename T> struct rlx {
+    std::atomic<T> v{};
+    rlx() = default;
+    rlx(T x) : v(x) {}
+    rlx(const rlx &o) : v(o.v.load(std::memory_order_relaxed)) {}
+    rlx &operator=(const rlx &o) { v.store(o.v.load(std::memory_order_relaxed), std::memory_order_relaxed); return *this; }
+    operator T() const { return v.load(std::memory_order_relaxed); }
+    T operator=(T x) { v.store(x, std::memory_order_relaxed); return x; }
+    T operator++() { T n = v.load(std::memory_order_relaxed) + 1; v.store(n, std::memory_order_relaxed); return n; }
+    T operator++(int) { T o = v.load(std::memory_order_relaxed); v.store(o + 1, std::memory_order_relaxed); return o; }
+    T operator+=(T d) { T n = v.load(std::memory_order_relaxed) + d; v.store(n, std::memory_order_relaxed); return n; }
+};
+
 struct stall_entry {
-    int site = -1;
-    int nth = 0;     // fire at the nth hit of the site in this round (1-based)
-    int seen = 0;
-    int ticks = 0;   // wait until the other threads made this many hook calls
-    int fired = 0;
+    rlx<int> site = -1;
+    rlx<int> nth = 0;     // fire at the nth hit of the site in this round (1-based)
+    rlx<int> seen = 0;
+    rlx<int> ticks = 0;   // wait until the other threads made this many hook calls
+    rlx<int> fired = 0;
+    stall_entry() = default;
+    stall_entry(int s, int n, int se, int t, int f) : site(s), nth(n), seen(se), ticks(t), fired(f) {}
 };
 
 struct alignas(128) slot {
@@ -37,16 +54,16 @@ struct alignas(128) slot {
     std::atomic<int> done{0};
     std::atomic<int> last_site{-1};
     std::atomic<int> used{0};
-    int tid = -1;       // team index, or -1 for auxiliary (library created) threads
-    int aux_index = -1; // order of arrival of auxiliary threads within a round
-    pid_t ktid = 0;
-    uint64_t hits[NSITES] = {};
-    uint64_t stalls_fired = 0;
-    uint16_t ev[EVLOG];
-    int nev = 0;
+    rlx<int> tid = -1;       // team index, or -1 for auxiliary (library created) threads
+    rlx<int> aux_index = -1; // order of arrival of auxiliary threads within a round
+    rlx<pid_t> ktid = 0;
+    rlx<uint64_t> hits[NSITES];
+    rlx<uint64_t> stalls_fired = 0;
+    rlx<uint16_t> ev[EVLOG];
+    rlx<int> nev = 0;
     stall_entry plan[4];
-    int nplan = 0;
-    uint64_t noise = 0x12345;
+    rlx<int> nplan = 0;
+    rlx<uint64_t> noise = 0x12345;
 };
 
 struct team_state {
@@ -54,7 +71,7 @@ struct team_state {
     int nteam = 0;
     std::atomic<int> aux_counter{0};
     stall_entry aux_plan[4][4]; // plan for the k-th auxiliary thread of the round
-    int aux_nplan[4] = {0, 0, 0, 0};
+    rlx<int> aux_nplan[4];
     bool yieldy = false;        // unpinned mode: yield instead of spin
     uint64_t stall_cap_cycles = 120000;
     int noise_mask = 0;         // 0 = no random yields
@@ -69,7 +86,7 @@ inline pid_t gettid_() { return (pid_t)syscall(SYS_gettid); }
 
 struct aux_releaser {
     slot *s = nullptr;
-    ~aux_releaser() { if (s) { s->used.store(0, std::memory_order_release); } }
+    ~aux_releaser() { if (s) { s->used.store(0, std::memory_order_relaxed); } }
 };
 inline thread_local aux_releaser tl_aux_rel;
 
@@ -77,7 +94,7 @@ inline slot *acquire_aux_slot() {
     for (int i = MAX_TEAM; i < MAX_SLOTS; i++) {
         int e = 0;
         if (g_team.slots[i].used.load(std::memory_order_relaxed) == 0 &&
-            g_team.slots[i].used.compare_exchange_strong(e, 1, std::memory_order_acquire)) {
+            g_team.slots[i].used.compare_exchange_strong(e, 1, std::memory_order_relaxed)) {
             slot *s = &g_team.slots[i];
             s->tid = -1;
             s->ktid = gettid_();
@@ -88,8 +105,8 @@ inline slot *acquire_aux_slot() {
             s->aux_index = k;
             s->nplan = 0;
             if (k < 4) {
-                s->nplan = g_team.aux_nplan[k];
-                for (int j = 0; j < s->nplan; j++) { s->plan[j] = g_team.aux_plan[k][j]; s->plan[j].seen = 0; s->plan[j].fired = 0; }
+                s->nplan = (int)g_team.aux_nplan[k];
+                for (int j = 0, n = s->nplan; j < n; j++) { s->plan[j] = g_team.aux_plan[k][j]; s->plan[j].seen = 0; s->plan[j].fired = 0; }
             }
             tl_slot = s;
             tl_aux_rel.s = s;
@@ -119,13 +136,14 @@ inline bool others_all_idle(const slot *me) {
 inline void do_stall(slot *s, stall_entry &st) noexcept {
     st.fired = 1;
     s->stalls_fired++;
+    const uint64_t want_ticks = (uint64_t)(int)st.ticks;
     uint64_t base = others_ticks(s);
     uint64_t t0 = rdtsc();
     unsigned n = 0;
     for (;;) {
         if (g_team.yieldy) sched_yield(); else cpu_relax();
         if ((++n & 15) == 0 || g_team.yieldy) {
-            if (others_ticks(s) - base >= (uint64_t)st.ticks) break;
+            if (others_ticks(s) - base >= want_ticks) break;
             if (rdtsc() - t0 > g_team.stall_cap_cycles) break;
             // nobody else can make progress: stop waiting (aux threads are not considered, cap handles them)
             if (g_team.aux_counter.load(std::memory_order_relaxed) == 0 && others_all_idle(s)) break;
@@ -140,16 +158,17 @@ inline void hook_handler(int site, const void *, long, bool stallable) noexcept 
     s->last_site.store(site, std::memory_order_relaxed);
     s->tick.store(s->tick.load(std::memory_order_relaxed) + 1, std::memory_order_relaxed);
     if (!stallable) {
-        if (s->nev < EVLOG) s->ev[s->nev++] = (uint16_t)site;
+        int ne = s->nev;
+        if (ne < EVLOG) { s->ev[ne] = (uint16_t)site; s->nev = ne + 1; }
         return;
     }
-    for (int i = 0; i < s->nplan; i++) {
+    for (int i = 0, n = s->nplan; i < n; i++) {
         stall_entry &e = s->plan[i];
-        if (e.site == site && ++e.seen == e.nth) do_stall(s, e);
+        if ((int)e.site == site && ++e.seen == (int)e.nth) do_stall(s, e);
     }
     if (g_team.noise_mask) {
-        s->noise ^= s->noise << 13; s->noise ^= s->noise >> 7; s->noise ^= s->noise << 17;
-        if ((s->noise & g_team.noise_mask) == 0) sched_yield();
+        uint64_t nz = s->noise; nz ^= nz << 13; nz ^= nz >> 7; nz ^= nz << 17; s->noise = nz;
+        if ((nz & (uint64_t)g_team.noise_mask) == 0) sched_yield();
     }
 }
 
@@ -236,9 +255,9 @@ inline bool process_quiescent(pid_t self, std::string &desc) {
         bool at_barrier = false; int tid = -2; int last = -1;
         for (int i = 0; i < MAX_SLOTS; i++) {
             slot &s = g_team.slots[i];
-            if (s.ktid == t && (i < g_team.nteam || s.used.load(std::memory_order_relaxed))) {
+            if ((pid_t)s.ktid == t && (i < g_team.nteam || s.used.load(std::memory_order_relaxed))) {
                 at_barrier = s.at_barrier.load(std::memory_order_relaxed) != 0;
-                tid = s.tid; last = s.last_site.load(std::memory_order_relaxed);
+                tid = (int)s.tid; last = s.last_site.load(std::memory_order_relaxed);
             }
         }
         char st = '?';
@@ -338,14 +357,14 @@ public:
             int who = (int)r.below((uint32_t)(n + (aux_targets ? 1 : 0)));
             if (who < n) {
                 slot &s = g_team.slots[who];
-                if (s.nplan < 4) s.plan[s.nplan++] = e;
+                if (s.nplan < 4) { int np = s.nplan; s.plan[np] = e; s.nplan = np + 1; }
                 d += "t" + std::to_string(who);
             } else {
                 int ak = (int)r.below(2);
-                if (g_team.aux_nplan[ak] < 4) g_team.aux_plan[ak][g_team.aux_nplan[ak]++] = e;
+                if (g_team.aux_nplan[ak] < 4) { int np = g_team.aux_nplan[ak]; g_team.aux_plan[ak][np] = e; g_team.aux_nplan[ak] = np + 1; }
                 d += "a" + std::to_string(ak);
             }
-            d += std::string("@") + cocls::verif::site_names[e.site] + "#" + std::to_string(e.nth) + "+" + std::to_string(e.ticks) + " ";
+            d += std::string("@") + cocls::verif::site_names[(int)e.site] + "#" + std::to_string((int)e.nth) + "+" + std::to_string((int)e.ticks) + " ";
         }
         return d;
     }
@@ -354,7 +373,7 @@ public:
         for (int i = 0; i < MAX_SLOTS; i++) {
             slot &s = g_team.slots[i];
             s.nev = 0; s.done.store(0, std::memory_order_relaxed);
-            for (int j = 0; j < s.nplan; j++) { s.plan[j].seen = 0; s.plan[j].fired = 0; }
+            for (int j = 0, n = s.nplan; j < n; j++) { s.plan[j].seen = 0; s.plan[j].fired = 0; }
         }
         g_team.aux_counter.store(0, std::memory_order_relaxed);
         std::function<void(int)> f = std::ref(role);
@@ -369,25 +388,27 @@ public:
     // events logged during the last round by member tid (EVENT hooks only)
     std::vector<int> events(int tid) const {
         const slot &s = g_team.slots[tid];
-        return std::vector<int>(s.ev, s.ev + s.nev);
+        std::vector<int> out;
+        for (int j = 0, n = s.nev; j < n; j++) out.push_back((int)(uint16_t)s.ev[j]);
+        return out;
     }
     // count of a given event over all slots in the last round
     int count_event(int site) const {
         int c = 0;
-        for (int i = 0; i < MAX_SLOTS; i++) { const slot &s = g_team.slots[i]; for (int j = 0; j < s.nev; j++) if (s.ev[j] == site) c++; }
+        for (int i = 0; i < MAX_SLOTS; i++) { const slot &s = g_team.slots[i]; for (int j = 0, n = s.nev; j < n; j++) if ((int)(uint16_t)s.ev[j] == site) c++; }
         return c;
     }
     int stalls_fired_last_round() const {
         int c = 0;
-        for (int i = 0; i < MAX_SLOTS; i++) { const slot &s = g_team.slots[i]; for (int j = 0; j < s.nplan; j++) c += s.plan[j].fired; }
+        for (int i = 0; i < MAX_SLOTS; i++) { const slot &s = g_team.slots[i]; for (int j = 0, n = s.nplan; j < n; j++) c += (int)s.plan[j].fired; }
         return c;
     }
     void export_hits(report &R) const {
         uint64_t st = 0;
         for (int i = 0; i < MAX_SLOTS; i++) {
             const slot &s = g_team.slots[i];
-            st += s.stalls_fired;
-            for (int k = 0; k < NSITES; k++) if (s.hits[k]) R.site_hits[cocls::verif::site_names[k]] += s.hits[k];
+            st += (uint64_t)s.stalls_fired;
+            for (int k = 0; k < NSITES; k++) if ((uint64_t)s.hits[k]) R.site_hits[cocls::verif::site_names[k]] += (uint64_t)s.hits[k];
         }
         R.extra["stalls_fired"] = std::to_string(st);
         R.pinned = pinned;
